@@ -19,6 +19,16 @@ use yv::*;
 
 type ZZ = BigInt;
 
+static PROF: std::sync::Mutex<Vec<(&'static str, u128)>> = std::sync::Mutex::new(Vec::new());
+fn timed<T>(name: &'static str, f: impl FnOnce() -> T) -> T {
+    let t0 = std::time::Instant::now();
+    let r = f();
+    let dt = t0.elapsed().as_micros();
+    let mut g = PROF.lock().unwrap();
+    if let Some(e) = g.iter_mut().find(|e| e.0 == name) { e.1 += dt; } else { g.push((name, dt)); }
+    r
+}
+
 #[derive(Clone, Copy, PartialEq, Eq, Debug)]
 enum Kind { Z, G, E }
 
@@ -164,7 +174,8 @@ fn im_entries(a: &IM, k: Kind) -> String {
     s
 }
 
-fn mat_mul(p: &IM, a: &IM, n: usize, k: Kind) -> IM {
+fn mat_mul(p: &IM, a: &IM, n: usize, k: Kind) -> IM { timed("o.mat_mul", || mat_mul_(p, a, n, k)) }
+fn mat_mul_(p: &IM, a: &IM, n: usize, k: Kind) -> IM {
     p.iter().map(|row| {
         (0..n).map(|j| {
             let mut s = Zq::zero();
@@ -299,7 +310,8 @@ fn gs_integral(b: &IM, k: Kind) -> Option<(Vec<ZZ>, Vec<Vec<Zq>>)> {
 fn alpha_pq(k: Kind) -> (i64, i64) { match k { Kind::Z | Kind::G => (3, 4), Kind::E => (2, 3) } }
 fn rho_pq(k: Kind) -> (i64, i64) { match k { Kind::Z => (1, 4), Kind::G => (1, 2), Kind::E => (3, 4) } }
 
-fn lll_reduced(b: &IM, k: Kind) -> Result<(), String> {
+fn lll_reduced(b: &IM, k: Kind) -> Result<(), String> { timed("o.lll_reduced", || lll_reduced_(b, k)) }
+fn lll_reduced_(b: &IM, k: Kind) -> Result<(), String> {
     let Some((d, lam)) = gs_integral(b, k) else { return Err("rows of B are linearly dependent".into()) };
     let (rp, rq) = rho_pq(k);
     for i in 0..b.len() {
@@ -320,7 +332,8 @@ fn lll_reduced(b: &IM, k: Kind) -> Result<(), String> {
 }
 
 /// the same verdict from the definition (Gram–Schmidt over the fraction field); used to cross-check `lll_reduced`
-fn lll_reduced_rational(b: &IM, k: Kind) -> Result<(), String> {
+fn lll_reduced_rational(b: &IM, k: Kind) -> Result<(), String> { timed("o.lll_reduced_rational", || lll_reduced_rational_(b, k)) }
+fn lll_reduced_rational_(b: &IM, k: Kind) -> Result<(), String> {
     let Some((nrm, mu)) = gram_schmidt(b, k) else { return Err("rows of B are linearly dependent".into()) };
     for i in 0..b.len() {
         for j in 0..i {
@@ -335,7 +348,8 @@ fn lll_reduced_rational(b: &IM, k: Kind) -> Result<(), String> {
 }
 
 /// Some(P⁻¹) iff P is unimodular: fraction-free Gauss–Jordan, the result is verified by multiplication
-fn integral_inverse(p: &IM, k: Kind) -> Option<IM> {
+fn integral_inverse(p: &IM, k: Kind) -> Option<IM> { timed("o.inverse", || integral_inverse_(p, k)) }
+fn integral_inverse_(p: &IM, k: Kind) -> Option<IM> {
     let m = p.len();
     if p.iter().any(|r| r.len() != m) { return None; }
     let fast = (|| -> Option<Option<IM>> {
@@ -364,7 +378,8 @@ fn integral_inverse(p: &IM, k: Kind) -> Option<IM> {
 }
 
 /// exact inverse over the fraction field; Some only if it exists and is integral (⇔ P unimodular)
-fn integral_inverse_rational(p: &IM, k: Kind) -> Option<IM> {
+fn integral_inverse_rational(p: &IM, k: Kind) -> Option<IM> { timed("o.inverse_rational", || integral_inverse_rational_(p, k)) }
+fn integral_inverse_rational_(p: &IM, k: Kind) -> Option<IM> {
     let m = p.len();
     if p.iter().any(|r| r.len() != m) { return None; }
     let mut a: Vec<Vec<K>> = p.iter().enumerate().map(|(i, r)| {
@@ -393,7 +408,8 @@ fn integral_inverse_rational(p: &IM, k: Kind) -> Option<IM> {
     Some(out)
 }
 
-fn rank(a: &IM, n: usize, k: Kind) -> usize {
+fn rank(a: &IM, n: usize, k: Kind) -> usize { timed("o.rank", || rank_(a, n, k)) }
+fn rank_(a: &IM, n: usize, k: Kind) -> usize {
     let mut a = a.clone();
     let m = a.len();
     let mut prev = Zq::one();
@@ -490,18 +506,18 @@ runner!(hnf_ei64, lll_ei64, EisenInt<i64>);
 runner!(hnf_ebig, lll_ebig, EisenInt<BigInt>);
 
 fn call_hnf(ty: Ty, a: &IM, m: usize, n: usize, flags: [bool; 2], secs: u64) -> Option<Out<HnfRes>> {
-    match ty {
+    timed("impl.hnf", || match ty {
         Ty::I64 => hnf_i64(a, m, n, flags, secs), Ty::I128 => hnf_i128(a, m, n, flags, secs), Ty::Big => hnf_big(a, m, n, flags, secs),
         Ty::GI64 => hnf_gi64(a, m, n, flags, secs), Ty::GBig => hnf_gbig(a, m, n, flags, secs),
         Ty::EI64 => hnf_ei64(a, m, n, flags, secs), Ty::EBig => hnf_ebig(a, m, n, flags, secs),
-    }
+    })
 }
 fn call_lll(ty: Ty, a: &IM, m: usize, n: usize, flag: bool, secs: u64) -> Option<Out<LllRes>> {
-    match ty {
+    timed("impl.lll", || match ty {
         Ty::I64 => lll_i64(a, m, n, flag, secs), Ty::I128 => lll_i128(a, m, n, flag, secs), Ty::Big => lll_big(a, m, n, flag, secs),
         Ty::GI64 => lll_gi64(a, m, n, flag, secs), Ty::GBig => lll_gbig(a, m, n, flag, secs),
         Ty::EI64 => lll_ei64(a, m, n, flag, secs), Ty::EBig => lll_ebig(a, m, n, flag, secs),
-    }
+    })
 }
 
 // ---------------------------------------------------------------------------------------------
@@ -536,7 +552,9 @@ fn hnf_case(s: &mut Sink, cx: &mut Ctx, r: &mut Rng, ty: Ty, a: &IM, m: usize, n
     for flags in [[true, true], [true, false], [false, true], [false, false]] {
         let fl = format!("[{},{}]", flags[0], flags[1]);
         let d = desc("lll_hnf", ty, &fl, a, m, n);
+        let t0 = std::time::Instant::now();
         let Some(out) = call_hnf(ty, a, m, n, flags, cx.secs) else { s.count("skipped.does-not-fit-type"); return };
+        if std::env::var("C10_PROF").is_ok() && t0.elapsed().as_millis() > 300 { eprintln!("SLOW {} ms {}x{} {} bits={} rank={}", t0.elapsed().as_millis(), m, n, ty.name(), max_bits(a), rank(a, n, k)); }
         let (h, p, q, sh) = match out {
             Out::Timeout => { cx.timeouts += 1; s.oracle(false, "lll_hnf terminates", &d, &format!("no result after {} s", cx.secs)); s.eval_only(&d, true); return }
             Out::Panic(msg) => {
@@ -744,7 +762,9 @@ fn lll_case(s: &mut Sink, cx: &mut Ctx, r: &mut Rng, ty: Ty, a: &IM, m: usize, n
 // ---------------------------------------------------------------------------------------------
 
 #[derive(Clone, Copy, PartialEq, Debug)]
-enum Mag { Tiny, Small, Medium, Near53, Big }
+enum Mag { Tiny, Small, Medium, Near53, Big(usize) }
+
+fn mag_name(m: Mag) -> String { match m { Mag::Big(d) => format!("Big{}", d), _ => format!("{:?}", m) } }
 
 fn rand_big(r: &mut Rng, digits: usize) -> ZZ {
     let mut s = String::new();
@@ -760,7 +780,7 @@ fn rand_int(r: &mut Rng, mag: Mag) -> ZZ {
         Mag::Small => zi(r.range(-20, 20)),
         Mag::Medium => zi(r.range(-(1 << 20), 1 << 20)),
         Mag::Near53 => { let b = 1i64 << 53; let v = b + r.range(-4, 4); let v = if r.chance(1, 3) { v * 3 } else { v }; zi(if r.bool() { -v } else { v }) }
-        Mag::Big => { let d = *r.pick(&[20usize, 25, 40, 80, 150, 300]); rand_big(r, d) }
+        Mag::Big(d) => { let d = if r.chance(1, 5) { 1 + r.below(d as u64) as usize } else { d }; rand_big(r, d) }
     }
 }
 fn rand_elem(r: &mut Rng, mag: Mag, k: Kind, zero_pm: u64) -> Zq {
@@ -977,27 +997,32 @@ fn main() {
     // ---- random stream ------------------------------------------------------------------------
     let max_dim: usize = if thorough { 12 } else { 7 };
     let (n_hnf, n_lll) = if thorough { (2600, 2200) } else { (420, 360) };
-    let mags = [Mag::Tiny, Mag::Tiny, Mag::Small, Mag::Small, Mag::Medium, Mag::Near53, Mag::Big];
+    let mags = [Mag::Tiny, Mag::Tiny, Mag::Small, Mag::Small, Mag::Medium, Mag::Near53, Mag::Big(0)];
     for it in 0..n_hnf + n_lll {
         if cx.timeouts >= 3 { break }
         let is_hnf = it < n_hnf;
         let k = *r.pick(&[Kind::Z, Kind::Z, Kind::Z, Kind::G, Kind::G, Kind::E, Kind::E]);
-        let mag = *r.pick(&mags);
+        let mut mag = *r.pick(&mags);
+        if let Mag::Big(_) = mag { mag = Mag::Big(*r.pick(&[20usize, 25, 40, 80, 150, 300])); }
         // small shapes are exhausted often, large ones sampled
         let dim = |r: &mut Rng| -> usize { if r.chance(3, 4) { 1 + r.below(max_dim.min(7) as u64) as usize } else { 1 + r.below(max_dim as u64) as usize } };
         let (mut m, mut n) = (dim(&mut r), dim(&mut r));
-        if mag == Mag::Big && m * n > 49 { m = m.min(7); n = n.min(7); }
+        if let Mag::Big(d) = mag {
+            // the real code needs ~15 s for a 7×5 Eisenstein matrix of 300-digit entries: keep single calls well below 1 s
+            let cap = match d { 0..=25 => 7, 26..=80 => 6, 81..=150 => 5, _ => 4 } + if thorough { 1 } else { 0 };
+            m = m.min(cap); n = n.min(cap);
+        }
         if is_hnf {
             let (a, what) = gen_hnf_input(&mut r, m, n, mag, k);
             s.count(&format!("gen.hnf.{}", what));
-            s.count(&format!("gen.mag.{:?}", mag));
+            s.count(&format!("gen.mag.{}", mag_name(mag)));
             s.count(&format!("gen.rank.{}", rank(&a, n, k)));
             for ty in types_for(k, &a, m) { guarded_case(&mut s, "hnf", |s| hnf_case(s, &mut cx, &mut r, ty, &a, m, n)); }
         } else {
             if m > n { std::mem::swap(&mut m, &mut n); }
             let Some((a, what)) = gen_lll_input(&mut r, m, n, mag, k) else { s.count("gen.lll.rejected-dependent"); continue };
             s.count(&format!("gen.lll.{}", what));
-            s.count(&format!("gen.mag.{:?}", mag));
+            s.count(&format!("gen.mag.{}", mag_name(mag)));
             for ty in types_for(k, &a, m) { guarded_case(&mut s, "lll", |s| lll_case(s, &mut cx, &mut r, ty, &a, m, n)); }
         }
     }
@@ -1032,6 +1057,7 @@ fn main() {
         }
     }
     if cx.timeouts >= 3 { s.count("aborted-after-3-timeouts"); }
+    if std::env::var("C10_PROF").is_ok() { for (n, t) in PROF.lock().unwrap().iter() { eprintln!("{:28} {:>10.3} s", n, *t as f64 / 1e6); } }
     s.finish();
     // leaked timeout threads must not keep the process alive
     std::process::exit(0);
